@@ -1135,6 +1135,24 @@ SideSymmetric = b"S"''', '''SideA, SideB, SideSymmetric = (bytes([c]) for c in b
       base="seeded_neutral/N20", tests="fail", note="shared offset helper called with +pw for the unblinding"),
     B("n24-double-uses-sum-for-G", ["C12"], [(ED, "    y2_minus_x2 = (y_squared - x_squared) % Q           # G\n", "    y2_minus_x2 = (y_squared + x_squared) % Q           # G\n")],
       base="seeded_neutral/N24", tests="fail", note="descriptive-name doubling formula with a sign error"),
+    # ---- ordinary dict idioms in the restore function (probes after round 9)
+    N("r-reader-get-with-default", [(SP, """        if d["side"].encode("ascii") != self.side:
+            raise WrongSideSerialized
+        if d["hashed_params"] != self.hash_params():""", """        if d.get("side", "").encode("ascii") != self.side:
+            raise WrongSideSerialized
+        if d.get("hashed_params") != self.hash_params():""")], note="d.get(k[, default]) instead of d[k] for keys every stored object has"),
+    N("r-reader-dict-copy", [(SP, """        def _should_be_unused(count): raise NotImplementedError
+        self = klass(password=unhexlify(d["password"].encode("ascii")),
+                     idA=""", """        def _should_be_unused(count): raise NotImplementedError
+        d = dict(d)
+        self = klass(password=unhexlify(d["password"].encode("ascii")),
+                     idA=""")], note="the reader works on a copy of the parsed object"),
+    B("r-reader-get-misspelt-key", ["C10", "C09"], [(SP, """        if d["side"].encode("ascii") != self.side:
+            raise WrongSideSerialized
+        if d["hashed_params"] != self.hash_params():""", """        if d.get("side", "").encode("ascii") != self.side:
+            raise WrongSideSerialized
+        if d.get("hashed_param") != self.hash_params() and d.get("hashed_param") is not None:""")],
+      tests="fail", note="tolerant lookup of a misspelt key: the fingerprint is never compared"),
     # ---- N29 (root helper returning (x, xx), sign test on the even root, on-curve test as x*x == xx)
     B("n29-sign-test-inverted", ["C15", "C05"], [(ED, "    if unclamped & (1<<255):\n        if x == 0:", "    if not unclamped & (1<<255):\n        if x == 0:")],
       base="seeded_neutral/N29", tests="fail", note="the even root is negated when the sign bit is clear"),
